@@ -10,15 +10,20 @@ from ..mutate import replace_in_function, substitute
 
 META = {
     'level': 'other',
-    'rule_text': 'rule instances: each of the five returned values of both functions against the reference composition '
-                 'grid2geo -> llh2xyz -> conform7 -> xyz2llh -> geo2grid (automatic zone) written once in the checker, with every '
-                 'callee kept as an opaque call atom carrying all its formal parameters (defaults explicit); the height rule; the '
-                 'covariance path (local->Cartesian at the input position, Cartesian->local at the output position); direction constants; rounding',
+    'rule_text': 'rule instances: each of the five returned values of both functions, in three covariance configurations (absent, 3x3, 3x1 variance '
+                 'column), against the reference composition grid2geo -> llh2xyz -> conform7 -> xyz2llh -> geo2grid (automatic zone) written once in '
+                 'the checker, with every callee kept as an opaque call atom carrying all its formal parameters (defaults explicit); the height rule; '
+                 'the covariance path (local->Cartesian at the input position, Cartesian->local at the output position); direction constants; rounding; '
+                 'array-shape soundness of both covariance shapes through the inlined callees; every element of the returned covariance against '
+                 'R2^T J diag(R1 V R1^T, sd^2) J^T R2 end to end (callees inlined, published GDA94->GDA2020 figures) and stage by stage',
     'explanation': 'Static: both pipeline functions are abstractly evaluated with their seven callees opaque, so the value of every returned slot '
                    'is a nest of call atoms that shows exactly which stage fed which argument; it is compared with the reference nest. '
                    'Decides that each direction IS the stepwise composition the property names (no stage skipped, none fed from an earlier '
-                   'stage\'s variable, default GRS80/UTM everywhere, forward set / its negation), the height and covariance rules. The '
-                   'numerical round-trip figures follow from C02, C03, C06 and are not decided here.',
+                   'stage\'s variable, default GRS80/UTM everywhere, forward set / its negation), the height and covariance rules. A second '
+                   'evaluation inlines the covariance callees over symbolic 3x3 / 3x1 arrays: the result is compared, as an exact normal form, with '
+                   'the congruence R2^T J Q J^T R2 whose Jacobian is confirmed by exact differentiation inside the checker (hence symmetric PSD '
+                   'for PSD input); shape errors (an index outside a 3x1 array) are reported as violations. The numerical round-trip figures '
+                   '(0.3 mm / 0.2 mm) follow from C02, C03, C06 in floating point and are not decided here.',
 }
 
 OPAQUE = {'grid2geo', 'llh2xyz', 'conform7', 'xyz2llh', 'geo2grid', 'vcv_local2cart', 'vcv_cart2local', 'Transformation.__neg__'}
@@ -121,6 +126,193 @@ def run(repo, rep):
                     rep.holds('R-ROUND', key, '%s:%d' % (f.module.relpath, line), 'height rounded to %d decimals' % digits)
     rep.floor('R-WIRE', 30, 'five results of two functions in three covariance configurations')
     shape_rules(repo, rep)
+    covariance_rules(repo, rep)
+    stage_rules(repo, rep)
+    rep.floor('R-FORMULA', 72, 'nine covariance elements: end to end (two directions, two input shapes) and per stage (two rotations, two directions of the similarity)')
+
+
+COV_ORACLE = '''
+from math import radians, sin, cos
+import numpy as np
+from geodepy.convert import grid2geo, llh2xyz, xyz2llh
+from geodepy.constants import gda94_to_gda2020
+
+def rot(lat, lon):
+    p = radians(lat)
+    l = radians(lon)
+    # columns: unit east, north, up vectors in the Cartesian frame
+    return np.array([[-sin(l), -sin(p) * cos(l), cos(p) * cos(l)],
+                     [cos(l), -sin(p) * sin(l), cos(p) * sin(l)],
+                     [0.0, cos(p), sin(p)]])
+
+def jac(x, y, z, s, rx, ry, rz):
+    # d(t + s R x)/d(x, y, z, s, rx, ry, rz, tx, ty, tz),  R = [[1, rz, -ry], [-rz, 1, rx], [ry, -rx, 1]]
+    return np.array([[s, s * rz, -s * ry, x + rz * y - ry * z, 0.0, -s * z, s * y, 1.0, 0.0, 0.0],
+                     [-s * rz, s, s * rx, -rz * x + y + rx * z, s * z, 0.0, -s * x, 0.0, 1.0, 0.0],
+                     [s * ry, -s * rx, s, ry * x - rx * y + z, -s * y, s * x, 0.0, 0.0, 0.0, 1.0]])
+
+def cov(zone, east, north, ell_ht, V, forward):
+    g = grid2geo(zone, east, north)
+    if ell_ht is False:
+        h = 0
+    else:
+        h = ell_ht
+    c = llh2xyz(g[0], g[1], h)
+    if forward:
+        t = gda94_to_gda2020
+    else:
+        t = -gda94_to_gda2020
+    s = 1 + t.sc / 1000000
+    rx = radians(t.rx / 3600)
+    ry = radians(t.ry / 3600)
+    rz = radians(t.rz / 3600)
+    X = t.tx + s * (c[0] + rz * c[1] - ry * c[2])
+    Y = t.ty + s * (-rz * c[0] + c[1] + rx * c[2])
+    Z = t.tz + s * (ry * c[0] - rx * c[1] + c[2])
+    q = xyz2llh(X, Y, Z)
+    R1 = rot(g[0], g[1])
+    Vc = R1 @ V @ R1.transpose()
+    Q = np.zeros((10, 10))
+    for i in range(3):
+        for j in range(3):
+            Q[i, j] = Vc[i, j]
+    sd = t.tf_sd
+    Q[3, 3] = (sd.sd_sc / 1000000) ** 2
+    Q[4, 4] = radians(sd.sd_rx / 3600) ** 2
+    Q[5, 5] = radians(sd.sd_ry / 3600) ** 2
+    Q[6, 6] = radians(sd.sd_rz / 3600) ** 2
+    Q[7, 7] = sd.sd_tx ** 2
+    Q[8, 8] = sd.sd_ty ** 2
+    Q[9, 9] = sd.sd_tz ** 2
+    J = jac(c[0], c[1], c[2], s, rx, ry, rz)
+    W = J @ Q @ J.transpose()
+    R2 = rot(q[0], q[1])
+    return R2.transpose() @ W @ R2
+'''
+
+COV_OPAQUE = {'grid2geo', 'llh2xyz', 'xyz2llh', 'geo2grid'}
+
+
+def covariance_rules(repo, rep):
+    """end to end: returned local covariance = R2^T J diag(R1 V R1^T, sd^2) J^T R2 with the published GDA94->GDA2020 figures"""
+    # the Jacobian written in the oracle is itself confirmed by exact differentiation of the similarity formula
+    orc = Oracle(COV_ORACLE, base=repo, opaque=COV_OPAQUE)
+    names = ['x', 'y', 'z', 's', 'rx', 'ry', 'rz']
+    P = dict((n, Rat.sym('p' + n)) for n in names + ['tx', 'ty', 'tz'])
+    Fs = [P['tx'] + P['s'] * (P['x'] + P['rz'] * P['y'] - P['ry'] * P['z']),
+          P['ty'] + P['s'] * (-P['rz'] * P['x'] + P['y'] + P['rx'] * P['z']),
+          P['tz'] + P['s'] * (P['ry'] * P['x'] - P['rx'] * P['y'] + P['z'])]
+    J = orc.call('jac', **dict((n, P[n]) for n in names))
+    order = names + ['tx', 'ty', 'tz']
+    for i in range(3):
+        for k, n in enumerate(order):
+            if alg.decide_equal(J.data[i][k], alg.diff(Fs[i], alg.TABLE.sym('p' + n).id)) != 'equal':
+                raise AnalysisError('checker oracle: Jacobian entry (%d,%s) is not the derivative of the similarity formula' % (i, n))
+    for fname, fwd in (('transform_mga94_to_mga2020', True), ('transform_mga2020_to_mga94', False)):
+        f = repo.func('geodepy.transform', fname)
+        w = where(f, f.node)
+        ps = [p.name for p in f.params]
+        for cfg in ('3x3', '3x1'):
+            if cfg == '3x3':
+                vin = Mat([[Rat.sym('v%d%d' % (i, j)) for j in range(3)] for i in range(3)], (3, 3))
+                vref = vin
+            else:
+                vin = Mat([[Rat.sym('v%d%d' % (i, i))] for i in range(3)], (3, 1))
+                vref = Mat([[Rat.sym('v%d%d' % (i, i)) if i == j else C(0) for j in range(3)] for i in range(3)], (3, 3))
+            ev = Evaluator(repo, opaque=COV_OPAQUE)
+            val = ev.call_function(f, {ps[0]: Rat.sym('zone'), ps[1]: Rat.sym('east'), ps[2]: Rat.sym('north'), ps[3]: Rat.sym('ell_ht'), ps[4]: vin})
+            o = Oracle(COV_ORACLE, base=repo, opaque=COV_OPAQUE)
+            ref = o.call('cov', zone=Rat.sym('zone'), east=Rat.sym('east'), north=Rat.sym('north'), ell_ht=Rat.sym('ell_ht'), V=vref, forward=Bool(fwd))
+            got = val.items[4] if isinstance(val, Tup) and len(val.items) == 5 else None
+            base = 'R-FORMULA::geodepy/transform.py::%s::covariance%s' % (fname, cfg)
+            if not isinstance(got, Mat) or got.shape != (3, 3) or not isinstance(ref, Mat):
+                rep.undecided('R-FORMULA', base, w, 'returned covariance for a %s input is not a 3x3 array: %s' % (cfg, show(got, 2, 120)))
+                continue
+            for i in range(3):
+                for j in range(3):
+                    check_equal(rep, 'R-FORMULA', base + '[%d,%d]' % (i, j), w, got.data[i][j], ref.data[i][j],
+                                'local covariance (%d,%d) of %s = (R2^T J diag(R1 V R1^T, sd^2) J^T R2)[%d,%d]: input rotated to Cartesian at the input '
+                                'position, propagated through the similarity Jacobian with the published uncertainties, rotated back at the output position '
+                                '(a congruence of a PSD matrix: symmetric PSD)' % (i, j, fname, i, j))
+
+
+STAGE_ORACLE = COV_ORACLE + '''
+
+def local2cart(V, lat, lon):
+    R = rot(lat, lon)
+    return R @ V @ R.transpose()
+
+def cart2local(V, lat, lon):
+    R = rot(lat, lon)
+    return R.transpose() @ V @ R
+
+def helmert_cov(x, y, z, Vc, forward):
+    if forward:
+        t = gda94_to_gda2020
+    else:
+        t = -gda94_to_gda2020
+    s = 1 + t.sc / 1000000
+    rx = radians(t.rx / 3600)
+    ry = radians(t.ry / 3600)
+    rz = radians(t.rz / 3600)
+    Q = np.zeros((10, 10))
+    for i in range(3):
+        for j in range(3):
+            Q[i, j] = Vc[i, j]
+    sd = t.tf_sd
+    Q[3, 3] = (sd.sd_sc / 1000000) ** 2
+    Q[4, 4] = radians(sd.sd_rx / 3600) ** 2
+    Q[5, 5] = radians(sd.sd_ry / 3600) ** 2
+    Q[6, 6] = radians(sd.sd_rz / 3600) ** 2
+    Q[7, 7] = sd.sd_tx ** 2
+    Q[8, 8] = sd.sd_ty ** 2
+    Q[9, 9] = sd.sd_tz ** 2
+    J = jac(x, y, z, s, rx, ry, rz)
+    return J @ Q @ J.transpose()
+'''
+
+
+def stage_rules(repo, rep):
+    """the three covariance stages one at a time, each over its own symbolic inputs (decidable where the end-to-end comparison is too deep):
+    local->Cartesian rotation, propagation through the similarity with the published set, Cartesian->local rotation"""
+    V = Mat([[Rat.sym('v%d%d' % (i, j)) for j in range(3)] for i in range(3)], (3, 3))
+    for fname, oname, txt in (('vcv_local2cart', 'local2cart', 'R V R^T'), ('vcv_cart2local', 'cart2local', 'R^T V R')):
+        f = repo.func('geodepy.statistics', fname)
+        rep.analysed(f)
+        w = where(f, f.node)
+        ps = [p.name for p in f.params]
+        got = Evaluator(repo).call_function(f, {ps[0]: V, ps[1]: Rat.sym('lat'), ps[2]: Rat.sym('lon')})
+        ref = Oracle(STAGE_ORACLE, base=repo, opaque=COV_OPAQUE).call(oname, V=V, lat=Rat.sym('lat'), lon=Rat.sym('lon'))
+        base = 'R-FORMULA::geodepy/statistics.py::%s::' % fname
+        if not isinstance(got, Mat) or got.shape != (3, 3):
+            rep.undecided('R-FORMULA', base + 'shape', w, '%s of a 3x3 matrix is not a 3x3 array' % fname)
+            continue
+        for i in range(3):
+            for j in range(3):
+                check_equal(rep, 'R-FORMULA', base + '[%d,%d]' % (i, j), w, got.data[i][j], ref.data[i][j],
+                            '%s = %s with R the east/north/up column matrix, element (%d,%d)' % (fname, txt, i, j))
+    f = repo.func('geodepy.transform', 'conform7')
+    rep.analysed(f)
+    w = where(f, f.node)
+    ps = [p.name for p in f.params]
+    for fwd, label in ((True, 'gda94_to_gda2020'), (False, '-gda94_to_gda2020')):
+        ev = Evaluator(repo)
+        m = repo.module('geodepy.constants')
+        t = ev.global_value(m, 'gda94_to_gda2020')
+        if not fwd:
+            neg = repo.cls('geodepy.constants', 'Transformation').methods['__neg__']
+            t = ev.call_function(neg, {neg.params[0].name: t})
+        got = ev.call_function(f, {ps[0]: Rat.sym('x'), ps[1]: Rat.sym('y'), ps[2]: Rat.sym('z'), ps[3]: t, ps[4]: V})
+        ref = Oracle(STAGE_ORACLE, base=repo, opaque=COV_OPAQUE).call('helmert_cov', x=Rat.sym('x'), y=Rat.sym('y'), z=Rat.sym('z'), Vc=V, forward=Bool(fwd))
+        base = 'R-FORMULA::geodepy/transform.py::conform7(%s)::covariance' % label
+        g = got.items[3] if isinstance(got, Tup) and len(got.items) == 4 else None
+        if not isinstance(g, Mat) or g.shape != (3, 3):
+            rep.undecided('R-FORMULA', base, w, 'conform7 with the published set and a 3x3 covariance does not return a 3x3 array: %s' % show(g, 2, 120))
+            continue
+        for i in range(3):
+            for j in range(3):
+                check_equal(rep, 'R-FORMULA', base + '[%d,%d]' % (i, j), w, g.data[i][j], ref.data[i][j],
+                            'Cartesian covariance (%d,%d) through conform7 with %s = (J diag(V, sd^2) J^T)[%d,%d]' % (i, j, label, i, j))
 
 
 def shape_rules(repo, rep):
@@ -179,4 +371,16 @@ def controls(repo):
             return n
         substitute(fn, pred, make, limit=1, expect=1)
     out.append(('height-false-as-number', repo.variant({'geodepy/transform.py': replace_in_function(src, 'transform_mga2020_to_mga94', height_in)}), 'transform_mga2020_to_mga94'))
+    src3 = repo.sources['geodepy/statistics.py']
+
+    def untransposed(fn):
+        # vcv_cart2local computes R V R^T (the other direction's congruence)
+        def pred(n):
+            return isinstance(n, ast.Assign) and isinstance(n.targets[0], ast.Name) and n.targets[0].id == 'vcv_local' and isinstance(n.value, ast.BinOp)
+
+        def make(n):
+            n.value = ast.parse('rot_matrix @ vcv_cart @ rot_matrix.transpose()').body[0].value
+            return n
+        substitute(fn, pred, make, limit=1, expect=1)
+    out.append(('covariance-rotated-the-wrong-way', repo.variant({'geodepy/statistics.py': replace_in_function(src3, 'vcv_cart2local', untransposed)}), 'vcv_cart2local'))
     return out
